@@ -357,7 +357,7 @@ Init == cfg = NoCfg /\ req = NoReq /\ p = Idle /\ tab = <<>> /\ bk = <<"", 0>> /
 \* them at start-up of the runs that do not use them)
 MCConfigs(z) ==
     {FixMode(MkR(rs, "rot")) : rs \in {{}} \cup {{r} : r \in {x \in AllPlaced : x.place # "block"}} \cup Ladders}
-      \cup {FixMode(c) : c \in {x \in UNION {StratumFB(i) : i \in {4, 7}} :
+      \cup {FixMode(c) : c \in {x \in UNION {StratumFB(i) : i \in {7}} :
                /\ x.mode \in {"rot", "default"} /\ x.prot \in {"on", "off", "expired"}
                /\ (x.client.known => x.client.svc \in {"inherit", "active"})}}
 MCConfigs02(z) == {FixMode(MkR02(rs, "rot")) : rs \in {{}} \cup {{r} : r \in Placed02}}
